@@ -15,7 +15,7 @@ CHECKS = {
          "DESIGN.md §5 C08"),
  "C17": ("bounded-exhaustive enumeration of re-framings of a protocol-conforming server's payload against the real client (forced boundary, uniform size, info/empty/error frames at every payload offset), reference decoding of every frame recorded from the real server, and scheduler-controlled exploration of the error-frame/first-error-wins race",
          "listing-only and small-tree sessions re-framed with a boundary at every payload offset, every uniform frame size, 1/100/1000 info frames, empty data frames and an error frame at every offset; a 600 KiB file with frame sizes around the 256 KiB buffer; all frames of 30 real server sessions validated and decoded; error frame + server exit explored with <=1 schedule deviation at 5 capacity pairs",
-         "payload producer is the reference sender; frames of a live server cannot be merged across its wait points; two known findings (frames > 256 KiB rejected, message lost when a write failure wins the race)",
+         "payload producer is the reference sender; frames of a live server cannot be merged across its wait points; one known finding (message lost when a write failure wins the race); frames up to 2^24-1 bytes are accepted since the repair",
          "DESIGN.md §5 C17"),
  "C05": ("bounded-exhaustive enumeration of hostile file lists (escape vector x entry type x options x destination state x receiver role x solicited/unsolicited data) sent by a scripted sender to the real receiver; full before/after snapshot of everything around the destination plus information-flow checks",
          "11 escape vectors (dot-dot forms, absolute, pre-existing relative/absolute directory symlinks, pre-existing file symlink, symlink sent earlier in the same list, '..' itself) x 7 entry types x {-a,-rlD,-a --delete} x {empty, populated} x {pulling client, writable daemon module}, with file data also pushed unsolicited, and 11 hostile sub-directory arguments of daemon uploads: the surrounding canary area (content, mode, owner, ns mtime, targets, entry set) must be bit-identical and no canary block checksum or byte may appear in requests or destination files",
@@ -87,11 +87,31 @@ CHECKS = {
          "DESIGN.md §5 C19"),
 }
 NOT_BUILT_REASON = "check not built yet in this revision (planned in DESIGN.md §5); nothing is claimed for it"
+# parts added after the first build (each closed a gap shown by a seeded change or a defect report)
+EXTRA = {
+ "C01": "Added: directories and contents below the source root as sources; part cli = the gokr-rsync command in its own process with its default landlock sandbox for 8 ways of naming the source x {-r,-a,-rt,-d} x {local, push, pull over loopback}.",
+ "C02": "Added: receiver-large (19 streams at the scale other senders produce: single literal tokens up to 3 MiB+1, 3000-token streams, 131072-byte blocks in reverse order with the short block first) and, in sender-large, block lengths above the sender's 256 KiB read chunk (262145, 300000; thorough 262144 and 2^20) with a 600001-byte literal op.",
+ "C03": "Added: header-echo variants (all-zero header as tridge echoes it, strong length 0/2/15) and the demand that a kept file is not re-stamped with the new version's time; flips that declare a literal of >= 16 MiB are skipped and counted.",
+ "C04": "Added: files whose leading full blocks are unchanged (appended data; shorter different end), a directory created by the transfer; after a connection break every order of the first failure is explored; quick freezes every 11 bytes (thorough 7 and 1).",
+ "C05": "Added: 8 vectors whose hostile entry lies several levels below the escaping component with unlisted parents.",
+ "C08": "Added: every pair of deviations inside one checksum header; complete frames of 13 lengths (0..2^24-1) x 8 tags x 4 positions against the client; part vanishing (client drops the connection after N bytes of a 24 MiB download, canonical pull follows at once).",
+ "C09": "Added: names that sort between a directory and its contents (d-old, d.bak/), identity (inode) of listed up-to-date entries, directory-only rules (b/, z/), non-recursive -d transfers, and sources named without trailing slash with siblings next to the transferred directory.",
+ "C12": "Added: part repeat = whole sessions run twice over boundary mtimes in 5 arrangements x 6 option sets (second run must leave every entry the same file system object), the -c rule with the real sender's list checksums for sizes 0..1 MiB, sparse up-to-date files of 2^31-1..5 GiB.",
+ "C13": "Added: part shapes = rule lists over trailing-slash, leading-slash and path rules: refused or exactly the denoted selection.",
+ "C14": "Added: option sets with -d instead of -r and with neither.",
+ "C15": "Added: numbering with names that sort before '.' next to the '.' entry.",
+ "C16": "Added: part long-runs = inserted/replaced/prepended runs of 256 KiB-1 .. 768 KiB+2B+1 around the sender's flush threshold, one or two per file.",
+ "C18": "Added: part aborted = a 24 MiB download dropped by the peer mid-file followed at once by 4 concurrent ordinary downloads, under the race detector.",
+ "C19": "Added: part neighbours = three prefix-named modules with their own rule lists on one server, asked in rotating order.",
+}
+
 def main():
     checks = []
     for pid in ALL:
         if pid not in CHECKS: continue
         tech, text, note, ref = CHECKS[pid]
+        if pid in EXTRA:
+            text = text + " " + EXTRA[pid]
         checks.append({
             "property_id": pid,
             "quick_cmd": "./run %s quick" % pid,
